@@ -70,6 +70,7 @@ class Engine:
         self.depth = 0
         self.call_stack = []
         self.frame_writes = None
+        self.gen_state = None
         self._objs = {}
         self.nalloc = 0
         Ver._n = 0
@@ -592,6 +593,25 @@ class Engine:
     def st_Pass(self, s, fr):
         return
 
+    def ex_Yield(self, n, fr):
+        item = self.eval(n.value, fr) if n.value is not None else None
+        g = self.gen_state
+        if g is None:
+            raise Unsupported("yield outside a generator under verification")
+        c, env, frame0 = g["contract"], g["env"], g["frame"]
+        ienv = dict(env)
+        names = c.gen["item"]
+        vals = self.unpack(item, len(names)) if len(names) > 1 else [item]
+        for nm, v in zip(names, vals):
+            ienv[nm] = v
+        if c.gen.get("each"):
+            self.oblige("%s/yield.each" % c.qualname, self.spec_bool(c.gen["each"], ienv, frame0))
+        term = self.eval_spec(c.gen["sum"], ienv, frame0)
+        g["yielded"] = self.binop(ast.Add(), g["yielded"], term)
+        fr_top = g["topframe"]
+        fr_top.locals["yielded"] = g["yielded"]
+        return None
+
     def st_Return(self, s, fr):
         raise _Return(self.eval(s.value, fr) if s.value is not None else None)
 
@@ -686,7 +706,9 @@ class Engine:
             self.exec_block(s.orelse, fr)
 
     def st_FunctionDef(self, s, fr):
-        fr.locals[s.name] = Closure(s, fr, fr.closure.module if fr.closure else "?", None)
+        outer = fr.closure.name if fr.closure else "?"
+        fr.locals[s.name] = Closure(s, fr, fr.closure.module if fr.closure else "?", None,
+                                    name="%s.<locals>.%s" % (outer, s.name))
 
     def st_Try(self, s, fr):
         if s.finalbody or s.orelse:
@@ -940,6 +962,8 @@ class Engine:
                         raise Unsupported("loop body writes the dict being iterated")
         elif isinstance(it, SV) and it.t == "key":
             ckind, coll = "key", it
+        elif isinstance(it, SeqIter) and it.kind == "gen":
+            ckind, coll = "gen", it.data
         elif isinstance(it, SeqIter) and it.kind == "range":
             ckind = "range"
             a = it.data
@@ -967,6 +991,8 @@ class Engine:
         elif ckind == "key":
             g0 = SV(T.empty_key(), "key")
             self.facts.key(g0.e)
+        elif ckind == "gen":
+            g0 = 0
         else:
             g0 = SV(coll[0], "int")
         self.oblige("%s/%s.init" % (qn, kindname), inv(g0))
@@ -1005,6 +1031,23 @@ class Engine:
                 self.assume(coll.e == self.facts.concat(pre2.e, rest.e))
                 self.facts.add(T.memb(i.e, coll.e))
                 item, vis2 = i, pre2
+            elif ckind == "gen":
+                gc, genv = coll["contract"], coll["env"]
+                part = self.fresh("real", "partial")
+                fr.locals[gname] = part
+                self.assume(inv(part))
+                ienv = dict(genv)
+                vals = []
+                for nm, kd in zip(gc.gen["item"], gc.gen["kinds"]):
+                    val = self.fresh(kd, nm)
+                    ienv[nm] = val
+                    vals.append(val)
+                gfr = Frame(coll["closure"], dict(genv))
+                if gc.gen.get("each"):
+                    self.assume(self.spec_bool(gc.gen["each"], ienv, gfr))
+                term = self.eval_spec(gc.gen["sum"], ienv, gfr)
+                item = tuple(vals) if len(vals) > 1 else vals[0]
+                vis2 = self.binop(ast.Add(), part, term)
             else:
                 cnt = self.fresh("int", "i")
                 fr.locals[gname] = cnt
@@ -1040,6 +1083,9 @@ class Engine:
             gN = coll
         elif ckind == "key":
             gN = coll
+        elif ckind == "gen":
+            gfr = Frame(coll["closure"], dict(coll["env"]))
+            gN = self.eval_spec(coll["contract"].gen["total"], coll["env"], gfr)
         else:
             gN = SV(z3.If(coll[1] >= coll[0], coll[1], coll[0]), "int")
         fr.locals[gname] = gN
@@ -1521,16 +1567,19 @@ class Engine:
             self_obj = locals_["self"]
         c = self.contracts.get(qn)
         is_target_top = (self.target is not None and self.target.qualname == qn and not self.call_stack)
-        if c is not None and not is_target_top and c.usable_at_call(self, locals_):
+        if c is not None and c.gen is None and not is_target_top and c.usable_at_call(self, locals_):
             self.used_contracts.add(qn)
             return self.apply_contract(c, locals_, cl)
+        if self._is_generator(cl.fdef):
+            if c is not None and c.gen is not None and not is_target_top:
+                self.used_contracts.add(qn)
+                return self.apply_gen_contract(c, locals_, cl)
+            from . import builtins as B
+            return B.generator_summary(self, cl, locals_)
         if qn in [x for x in self.call_stack]:
             raise Unsupported("recursion without a contract: %s" % qn)
         if len(self.call_stack) > 40:
             raise Unsupported("call depth")
-        if self._is_generator(cl.fdef):
-            from . import builtins as B
-            return B.generator_summary(self, cl, locals_)
         if self.call_stack or not is_target_top:
             self.inlined.add(qn)
         fr = Frame(cl, locals_, self_obj, defining_cls)
